@@ -11,6 +11,8 @@ LINK_KINDS = {
     'Z': dict(rate=8000, ch=1, n=0, q=0.3, sig='silence'),         # zero samples
     'G': dict(rate=8000, ch=1, n=2000, q=0.3, sig='mix', goff=1000),  # non-zero initial granule
     'E': dict(rate=16000, ch=2, n=2600, q=0.5, sig='noise'),
+    'M': dict(rate=44100, ch=2, n=80000, q=0.7, sig='noise'),     # ~ >64 KiB
+    'N': dict(rate=44100, ch=2, n=170000, q=0.7, sig='noise'),     # ~ >128 KiB
 }
 
 
@@ -22,6 +24,39 @@ def link(kind, serial, pages='natural', tag=None, **over):
     kw['tag'] = tag or f'{kind}{serial}'
     name = f"L_{kind}_{serial}_{pages}_" + '_'.join(f'{k}{v}' for k, v in sorted(over.items()))
     return mkzoo(name, **kw)
+
+
+def multiplexed(kind, serial, pages='natural', fserial=7777):
+    """Link `kind` with a foreign logical stream multiplexed into it (own BOS right after ours, data pages interleaved, own EOS)."""
+    p, m = link(kind, serial, pages)
+    data = open(p, 'rb').read()
+    pg = parse_pages(data)
+    def fpage(seq, flags, body):
+        lac = []
+        n = len(body)
+        while n >= 255:
+            lac.append(255); n -= 255
+        lac.append(n)
+        return Page(flags, seq * 1000, fserial, seq, lac, body)
+    out = [pg[0], fpage(0, 2, b'fishead\0' + bytes(56))]
+    fseq = 1
+    for i, q in enumerate(pg[1:]):
+        last = (i == len(pg) - 2)
+        if last:
+            out.append(fpage(fseq, 4, b'end'))
+            fseq += 1
+        elif i % 2 == 1:
+            out.append(fpage(fseq, 0, bytes([fseq & 255]) * (300 + 37 * fseq)))
+            fseq += 1
+        out.append(q)
+    blob = b''.join(x.encode() for x in out)
+    name = f'X_{kind}_{serial}_{pages}'
+    path = write_file(name + '.ogg', blob)
+    m = dict(m)
+    m['bytes'] = len(blob)
+    m['file'] = path
+    m['foreign'] = fserial
+    return path, m
 
 
 def make_chain(name, kinds, pages='natural', serial0=100):
@@ -62,6 +97,9 @@ def standard_files():
     out['F2'] = make_chain('F2', ['A', 'B', 'C'], pages=['3', 'flush', '2'])
     out['F2z'] = make_chain('F2z', ['A', 'D', 'Z', 'B'], pages=['4', 'flush', 'flush', '3'], serial0=300)
     out['F4'] = _single('F4', 'G', 7, '3')
+    # links whose whole audio sits in ONE page (first == last page), first, middle and last in a chain
+    out['F5'] = chain('F5', [link('D', 501, 'natural'), link('A', 502, '4'), link('D', 503, 'natural'), link('B', 504, '3'), link('D', 505, 'natural')])
+    out['F6'] = chain('F6', [multiplexed('A', 601, '3'), link('B', 602, '3')])
     return out
 
 
